@@ -30,10 +30,14 @@ type readResult struct {
 	// inside the interface) was returned together with an error.
 	PacketWithError bool
 	P               mq.ControlPacket // the packet itself, for a later second look
+	ErrText         string           // err.Error() at the time of the return
 }
 
 func resultOf(p mq.ControlPacket, err error, pan *guard.Panic) readResult {
 	r := readResult{Err: err, Panic: pan}
+	if err != nil && pan == nil {
+		guard.Call(func() { r.ErrText = err.Error() })
+	}
 	if pan == nil && err != nil && p != nil {
 		r.PacketWithError = true
 	}
